@@ -18,6 +18,7 @@ _ev = np.exp(0.3 * _r.standard_normal(D))
 _Q = np.linalg.qr(_r.standard_normal((D, D)))[0]
 MDENSE = (_Q * _ev) @ _Q.T
 MC = np.diag([1.0, 2.0, 0.5, 1.5])
+SGN = np.array([1.0, -1.0, 1.0])      # column signs of the negative-diagonal Cholesky-type factor
 
 
 class Counters(dict):
@@ -89,6 +90,12 @@ def make_systems(conv="bare", counters=None, which=None):
             return 0.1 * (v @ q + v.T @ q)
         return (f, np.tril(np.eye(D) + 0.1 * np.outer(q, q))) if t else f
 
+    def vjp_chol_neg(q):
+        r = vjp_chol(q)
+        f0 = r[0] if t else r
+        f = lambda v: f0(v * SGN[None, :])  # noqa: E731
+        return (f, np.tril(np.eye(D) + 0.1 * np.outer(q, q)) * SGN[None, :]) if t else f
+
     def dense_f(q):
         c.hit("metric")
         return np.eye(D) * (1 + q @ q) + np.outer(q, q)
@@ -140,6 +147,9 @@ def make_systems(conv="bare", counters=None, which=None):
         "riem_diag": lambda: S.DiagonalRiemannianMetricSystem(nld, metric_diag, vjp_metric_diagonal_func=vjp_diag, grad_neg_log_dens=gnld),
         "riem_scalar": lambda: S.ScalarRiemannianMetricSystem(nld, metric_scalar, vjp_metric_scalar_func=vjp_scalar, grad_neg_log_dens=gnld),
         "riem_chol": lambda: S.CholeskyFactoredRiemannianMetricSystem(nld, chol_f, vjp_metric_chol_func=vjp_chol, grad_neg_log_dens=gnld),
+        # a triangular factor with negative diagonal entries is a legitimate factor (only non-singularity is assumed)
+        "riem_chol_negdiag": lambda: S.CholeskyFactoredRiemannianMetricSystem(nld, lambda q: chol_f(q) * SGN[None, :], vjp_metric_chol_func=lambda q: vjp_chol_neg(q),
+                                                                            grad_neg_log_dens=gnld),
         "riem_dense": lambda: S.DenseRiemannianMetricSystem(nld, dense_f, vjp_metric_func=vjp_dense, grad_neg_log_dens=gnld),
         "riem_softabs": lambda: S.SoftAbsRiemannianMetricSystem(nld, grad_neg_log_dens=gnld, hess_neg_log_dens=hess, mtp_neg_log_dens=mtp, softabs_coeff=1.5),
         "constr_hTrue": lambda: S.DenseConstrainedEuclideanMetricSystem(nldc, constr, metric=MC, dens_wrt_hausdorff=True, grad_neg_log_dens=gnldc,
